@@ -148,7 +148,9 @@ Section Scope.
     intros h n H. unfold pick_best_admissible in H.
     set (vis := visible_in m (sort_services svcs) cfg h) in *.
     destruct (filter is_kube vis) as [|k ks] eqn:F.
-    - apply in_map_iff in H. destruct H as [s [E Hs]]. apply filter_In in Hs. apply in_map_iff. exists s. tauto.
+    - destruct (min_string _) as [n0|] eqn:MS; [|destruct H]. destruct H as [<-|[]].
+      apply min_string_In in MS.
+      apply in_map_iff in MS. destruct MS as [s [E Hs]]. apply filter_In in Hs. apply in_map_iff. exists s. tauto.
     - apply in_map_iff in H. destruct H as [s [E Hs]]. rewrite <- F in Hs. apply filter_In in Hs.
       apply in_map_iff. exists s. tauto.
   Qed.
